@@ -34,11 +34,14 @@ func NewDefaultFormatter(m zconst.LangMap) p.IssueFmtFunc {
 			e.SetMessage(m[t][zconst.IssueCodeFallback])
 			return
 		}
+		// all placeholders are replaced in one pass over the template. Replacing them one after the other would make the
+		// message depend on the order in which the params map is ranged over (a value may spell another placeholder)
+		pairs := make([]string, 0, 2*len(e.Params)+2)
 		for k, v := range e.Params {
-			msg = strings.ReplaceAll(msg, "{{"+k+"}}", fmt.Sprintf("%v", v))
+			pairs = append(pairs, "{{"+k+"}}", fmt.Sprintf("%v", v))
 		}
-		msg = strings.ReplaceAll(msg, valuePlaceholder, fmt.Sprintf("%v", e.Value))
-		e.SetMessage(msg)
+		pairs = append(pairs, valuePlaceholder, fmt.Sprintf("%v", e.Value))
+		e.SetMessage(strings.NewReplacer(pairs...).Replace(msg))
 	}
 
 }
